@@ -125,7 +125,13 @@ class Top(ProbeObserver):
                 if f.f_code is SUBSCRIBE_CODE:
                     self.during_subscribe = True
                 if prev is not None and prev.f_code is PROBE_CALL_CODE and self.activation is None:
-                    self.activation = f      # the immediate caller of the disposing callback ...
+                    g = f                    # the immediate caller of the disposing callback ...
+                    while g is not None and g.f_back is not None and (g.f_code.co_flags & 0x20):
+                        # ... which is the library function that pulls the generator when the callback is evaluated inside a
+                        # generator / generator expression (while_do's and for_in's lazily evaluated sources): the generator
+                        # frame itself returns at the next yield, the work that called next() on it is what is in flight
+                        g = g.f_back
+                    self.activation = g
                     below_probe = True
                 elif below_probe and f.f_code in STAGE_ENTRY_CODES:
                     self.activation = prev   # ... or rather the stage handler that the auto-detaching observer called
